@@ -225,6 +225,35 @@ func c06(c *Ctx) {
 				n++
 			}
 			r.Pass("R3.single-helper", core.FuncName(fn)+" uses helper", p.Pos(fn.Pos()), fmt.Sprintf("%d call(s)", len(callers[fn])))
+			// the helper DECIDES: whatever the caller selects (a node appended to a target list, a key
+			// appended to an accepted list) is selected only on the helper's true edge - no short-cut
+			// around it for some radii (e.g. "radius is the maximum, so everything is in range": the
+			// strict rule excludes the one id at distance 2^256-1)
+			decides := core.BoolCallGate("inRange", true, func(c2 *ssa.Call) bool { return core.StaticCalleeFn(c2) == helpers[0] })
+			na := 0
+			for _, b := range fn.Blocks {
+				for _, in := range b.Instrs {
+					ap, ok := in.(*ssa.Call)
+					if !ok || core.CalleeID(ap) != "builtin.append" || !core.InLoop(b) {
+						continue
+					}
+					// only lists that some helper-guarded append feeds: selection lists
+					el := core.VariadicElems(ap.Call.Args[1])
+					if len(el) != 1 {
+						continue
+					}
+					et := el[0].Type().String()
+					if !(strings.HasSuffix(et, "enode.Node") || et == "[]byte") {
+						continue
+					}
+					if !sameLoopAsHelper(fn, b, helpers[0]) {
+						continue
+					}
+					na++
+					w := core.InstrGuarded(ap, decides.Edge, nil)
+					r.Check(w == nil, "R3.single-helper", fmt.Sprintf("%s selection #%d decided-by-helper", core.FuncName(fn), na), p.Pos(ap.Pos()), "selected only on the true edge of the in-range helper", "something is selected as in range without the in-range helper having said so (a private short-cut: the three users of the rule can disagree): "+p.PathString(w))
+				}
+			}
 		}
 		// no other radius comparison in package portalwire outside the helper
 		for _, fn := range p.ModuleFuncs() {
@@ -613,4 +642,42 @@ func c17(c *Ctx) {
 		}
 	}
 	r.Check(okGet, "R4.get", core.FuncName(m.get), p.Pos(m.get.Pos()), "returns only bytes read from the database", "Get can return bytes that were not read from the database (cache layer or other source)")
+}
+
+// sameLoopAsHelper: block b lies in a loop of fn that also contains a call of helper.
+func sameLoopAsHelper(fn *ssa.Function, b *ssa.BasicBlock, helper *ssa.Function) bool {
+	for _, hb := range fn.Blocks {
+		has := false
+		for _, in := range hb.Instrs {
+			if c, ok := in.(ssa.CallInstruction); ok && core.StaticCalleeFn(c) == helper {
+				has = true
+			}
+		}
+		if !has {
+			continue
+		}
+		// b and hb are in the same cycle: each reaches the other
+		if reachesBlock(hb, b) && reachesBlock(b, hb) {
+			return true
+		}
+	}
+	return false
+}
+
+func reachesBlock(from, to *ssa.BasicBlock) bool {
+	seen := map[*ssa.BasicBlock]bool{}
+	work := append([]*ssa.BasicBlock{}, from.Succs...)
+	for len(work) > 0 {
+		x := work[len(work)-1]
+		work = work[:len(work)-1]
+		if x == to {
+			return true
+		}
+		if seen[x] {
+			continue
+		}
+		seen[x] = true
+		work = append(work, x.Succs...)
+	}
+	return false
 }
